@@ -61,9 +61,9 @@ def build(repo=None):
         for n in mod.tree.body:
             if isinstance(n, ast.Assign) and len(n.targets) == 1 and getattr(n.targets[0], "id", None) == r:
                 v = n.value
-                good = isinstance(v, ast.Call) and ast.unparse(v.func) in ("threading.local",) or good and False
-                if not (isinstance(v, ast.Call) and ast.unparse(v.func) in ("threading.local",)):
-                    good = False
+                ctor_names = {"threading.local"} | {(al.asname or al.name) for b in mod.tree.body if isinstance(b, ast.ImportFrom) and b.module == "threading" and not b.level for al in b.names if al.name == "local"} \
+                    | {(al.asname or "threading") + ".local" for b in mod.tree.body if isinstance(b, ast.Import) for al in b.names if al.name == "threading"}
+                good = isinstance(v, ast.Call) and ast.unparse(v.func) in ctor_names and not v.args and not v.keywords
         ob(f"root:{r}-is-thread-local", good)
     # no other module-level mutable state is introduced
     allowed_globals = set(ROOTS)
